@@ -135,8 +135,9 @@ def run_case(kind, idx, rng, sh):
         return xval(idx, rng, sh)
     le = rng.random() < 0.5
     units, line, strtab, lstrtab = build(rng, le)
-    # the referring units: one per line unit (same format and address size), some without the attribute
-    force = [dict(fmt=u.fmt, asz=u.asz) for u in units]
+    # the referring units: one per line unit (same address size; the format is the line unit's own and now and then the
+    # other one - gcc -gdwarf64 units refer to the 32-bit tables the assembler writes), some without the attribute
+    force = [dict(fmt=u.fmt if rng.random() > 0.12 else 96 - u.fmt, asz=u.asz) for u in units]
     extra_none = rng.random() < 0.3
     if extra_none:
         force.append({})
